@@ -85,6 +85,7 @@ def elem_selector(t, holder):
 
 def run(ctx):
     prog = ctx.prog
+    config_defaults(ctx, prog, 'R12.7', ['detached'])
     pd = prog.one("<popen::Popen as std::ops::Drop>::drop")
     T = M.Terms(pd)
     selfp = ("param", 1, pd.local_name(1))
